@@ -10,7 +10,7 @@ RULE = ("random statement sequences (1-8 statements) over 6 variable names (two 
         "statement at every position, the empty program; initial contexts empty / pre-bound with every value type. The value and the final context "
         "are compared with the model; `x op= e` is also compared with `x = x op e` on equal contexts. distinct class = (assignment operator, old "
         "value class, new value class, outcome)")
-VARS = ["a", "b", "c", "d", "max", "sum", "m", "m.k", "a.b"]  # `m.k` is one plain name, whatever `m` holds
+VARS = ["a", "b", "c", "d", "max", "sum", "m", "m.k", "a.b", "taxZone"]  # `m.k` is one plain name, whatever `m` holds
 FN_TARGETS = ["rate", "quota"]  # bound to context functions: reading the target calls the function
 SETTERS = gen.SETTER_OPS
 FAILING = [["bin", "/", ["num", "1", 0], ["num", "0", 0]], ["bin", "+", ["ref", "nil"], ["num", "1", 0]], ["fn", "nosuch", []], ["un", "!", ["num", "1", 0]], ["fn", "min", []]]
@@ -88,7 +88,7 @@ class AsgGen:
         if target[0] == "list" and r.random() < 0.7:
             # a list of names is not a name, whatever is assigned to it
             target = ["list", [["ref", v] for v in r.sample(VARS, r.randint(1, 3))]]
-            rhs = ["list", [gen.num_lit(*r.choice(gen.NUM_SMALL)) for _ in target[1]]]
+            rhs = ["list", [gen.num_lit(*r.choice(gen.NUM_SMALL)) for _ in range(r.choice([len(target[1])] * 3 + [0, 1, len(target[1]) - 1, len(target[1]) + 1]))]]
         if op in ("<<=", ">>=", "&=", "|=", "^=") and r.random() < 0.8:
             rhs = gen.num_lit(r.choice([0, 1, 2, 3, 5, 63, 64, -1]), 0)
         if target[0] == "ref" and r.random() < 0.15:
